@@ -31,6 +31,10 @@ def gen_cases(rng, tier):
         node, text, toks = docs.random_doc(rng, size='small' if tier == 'quick' else rng.choice(['small', 'medium']),
                                            strings=['plain', 'utf8', 'escapes'])
         extra = ' /* ä€\U0001F600 */'
+        if i % 4 == 2:
+            extra = ' /* ä\ufffd€ \U0010ffff\ud7ff\ue000 */'
+            if '""' in text:
+                text = text.replace('""', '"\ufffd\x85"', 1)
         if i % 2:
             # U+FEFF inside a string and inside a comment is an ordinary character (only a leading one is a byte order mark)
             extra = ' /* ä\ufeff€\U0001F600 */'
@@ -41,7 +45,10 @@ def gen_cases(rng, tier):
             for enc in ENCS:
                 cases.append([encode(t, enc), t.encode('utf-8'), 1])
     # short texts: every length residue, first char ASCII
-    for t in ['A', 'AB', 'Aé', 'AB\U0001F600', 'ASAP2_VERSION 1 71', 'A€€€', 'A\ufeffB', 'AB\ufeff', 'A\ufeff\ufeff "\ufeff"']:
+    for t in ['A', 'AB', 'Aé', 'AB\U0001F600', 'ASAP2_VERSION 1 71', 'A€€€', 'A\ufeffB', 'AB\ufeff', 'A\ufeff\ufeff "\ufeff"',
+              # characters a decoder might use as a sentinel or treat specially: U+FFFD, U+FFFE/U+FFFF, the last scalar value,
+              # the neighbours of the surrogate range, C1 controls, U+0080, U+07FF/U+0800 (UTF-8 length boundaries)
+              'A\ufffd', 'Prüfstand \ufffd /* \ufffd */', 'A\ufffe\uffff', 'A\U0010ffff', 'A\ud7ff\ue000', 'A\x80\x9f', 'A\u07ff\u0800\uffff\U00010000']:
         for enc in ENCS:
             cases.append([encode(t, enc), t.encode('utf-8'), 1])
     # a text that itself starts with U+FEFF: exactly one leading U+FEFF of the decoded text is taken as the byte order mark
